@@ -1006,6 +1006,26 @@ def S1(ctx, rule="S1"):
                 sel_counts = (hb, by_arm, csites[0])
             elif kind == "struct" and all(v[0] == "param" for v in by_arm.values()):
                 sel_struct = (hb, by_arm, csites[0])
+        if not sel_counts:
+            # the counts may be selected by a `match` / `if` on the order in the set-up function itself
+            # (`let counts = if reverse { edge_counts.outgoing().to_vec() } else { edge_counts.incoming().to_vec() }`)
+            for l_ in range(1, len(setup.locals)):
+                if "Vec<usize>" not in setup.locals[l_]["s"] or setup.locals[l_]["s"].startswith("&"):
+                    continue
+                arms_ = {}
+                for kind_, dbb, si_, x_ in get_defs(setup).of(l_):
+                    o_ = arm_order(ctx, setup, dbb)
+                    if o_ is None or kind_ != "call" or callee_path(x_) not in COPY_FNS or not x_["args"]:
+                        arms_ = None
+                        break
+                    g_ = [c for c in walk_expr(strip_refs(expr_operand(setup, x_["args"][0]))) if c.kind == "call" and c[1].startswith("edge_counts::EdgeCounts::")]
+                    if len(g_) != 1 or o_ in arms_:
+                        arms_ = None
+                        break
+                    arms_[o_] = ("getter", g_[0][1])
+                if arms_ and set(arms_) == {"Forward", "Reverse"}:
+                    sel_counts = (setup, arms_, None)
+                    break
         if sel_counts and not sel_struct:
             # the structure may be selected by a `match` on the order in the set-up function itself
             for l_ in range(1, len(setup.locals)):
@@ -1159,6 +1179,27 @@ def arm_order(ctx, setup, bb):
                     rest = [n for i, n in enumerate(names) if str(i) not in listed]
                     if len(rest) == 1:
                         return rest[0]
+        # `if order == StreamOrder::Reverse { .. } else { .. }` (possibly through a `let reverse = ..` flag)
+        neg = False
+        while de.kind == "unop" and de[1] == "Not":
+            neg = not neg
+            de = strip_refs(de[2])
+        if de.kind == "call" and de[1] in ("std::cmp::PartialEq::eq", "std::cmp::PartialEq::ne") and len(de[2]) == 2 and len(names) == 2:
+            ops = [strip_refs(x) for x in de[2]]
+            lit = [x for x in ops if x.kind == "agg" and x[2] == "stream_order::StreamOrder" and not x[4]]
+            oth = [x for x in ops if not (x.kind == "agg" and x[2] == "stream_order::StreamOrder")]
+            if len(lit) == 1 and len(oth) == 1 and lit[0][3] in names:
+                if de[1].endswith("::ne"):
+                    neg = not neg
+                holds = None
+                if vals == frozenset(["otherwise"]):
+                    holds = True
+                elif vals == frozenset(["0"]):
+                    holds = False
+                if holds is not None:
+                    if neg:
+                        holds = not holds
+                    return lit[0][3] if holds else [n for n in names if n != lit[0][3]][0]
     return None
 
 
@@ -1180,7 +1221,7 @@ def structure_roles(ctx):
             continue
         for bb, si, s in b.stmts():
             if s["k"] == "assign" and s["rv"]["k"] == "agg" and s["rv"].get("def") == "fn_graph::FnGraph" and \
-                    "FnGraphBuilder" in b.id:
+                    "FnGraphBuilder" in b.id and (fb.fns.get(b.id) or {}).get("public"):
                 build, agg = b, s
     if build is None:
         # the FnGraph value may be assembled by a crate-private constructor that build() calls (`FnGraph::from_parts(..)`)
@@ -1199,7 +1240,7 @@ def structure_roles(ctx):
         return None
     # orientation of add_edge calls per destination local
     orient = {}
-    for bid in m.reach(build.id):
+    for bid in sorted(set(m.reach(build.id)) | (set(m.reach(outer_build.id)) if outer_build is not None else set())):
         b = fb.bodies[bid]
         for bb, t in b.calls():
             p = callee_path(t)
@@ -1516,7 +1557,23 @@ def S2(ctx, rule="S2"):
         if kinds == {"child"}:
             n_rel += 1
             ctx.cover(rule + ".release", b.id)
-            check_release_send(ctx, rule, b, bb, t, where, key)
+            # the send may sit in a private method of a sender-holding type (`gate.try_queue(child)`): it is unguarded there
+            # and sends its own parameter, so the guard and the decrement are looked for at each call of the method
+            lifted = None
+            if b.kind == "fn" and not (fb.fns.get(b.id) or {}).get("public") and not b.back_edges() and \
+                    not [1 for _sb, x_, _rel in guard_eq_zero(b, bb) if not isinstance(x_, str) and elem_read(x_) is not None]:
+                vs_ = fl.sources_operand(b, t["args"][1], (), "prov@" + b.id)
+                pidx = {x[2] for x in vs_ if x.kind == "param" and x[1] == b.id and not x[3]}
+                csites = [(cb_, cbb_, ct_) for (cb_, cbb_, ct_) in fl.call_sites().get(b.id, []) if not fb.is_test_body(cb_)]
+                if len(pidx) == 1 and len(vs_) == 1 and csites and all(list(pidx)[0] - 1 < len(ct_["args"]) for _, _, ct_ in csites):
+                    pi_ = list(pidx)[0]
+                    lifted = [(cb_, cbb_, {"args": [ct_["args"][0], ct_["args"][pi_ - 1]], "dest": ct_["dest"]}) for cb_, cbb_, ct_ in csites]
+            if lifted:
+                for cb_, cbb_, t2_ in lifted:
+                    ctx.cover(rule + ".release", cb_.id)
+                    check_release_send(ctx, rule, cb_, cbb_, t2_, m.where(cb_, cbb_), short(cb_.id))
+            else:
+                check_release_send(ctx, rule, b, bb, t, where, key)
         elif kinds == {"all-nodes"}:
             n_pre += 1
             ctx.cover(rule + ".preload", b.id)
@@ -2597,9 +2654,20 @@ def monotone_of_node_count(ctx, body, e, depth=0):
         for x, y in ((a, b), (b, a)):
             if x.kind == "const" and (e[1] == "Add" or (const_val(x) or 0) >= 1):
                 return monotone_of_node_count(ctx, body, y, depth + 1)
-    if e.kind == "local" and depth < 3:
-        # a user variable assigned once but with projections? give up
-        return False, None
+    if e.kind == "field" and isinstance(e[2], int) and strip_refs(e[1]).kind == "call" and strip_refs(e[1])[1] in ctx.fb.bodies and \
+            len(strip_refs(e[1])) > 3 and isinstance(strip_refs(e[1])[3], int):
+        # `setup(..).fn_count`: a field of the struct a private set-up function returns; its value is followed into that function
+        cbb = strip_refs(e[1])[3]
+        tm = body.blocks[cbb]["term"] if cbb < len(body.blocks) else {}
+        if tm.get("k") == "call" and callee_path(tm) == strip_refs(e[1])[1]:
+            srcs = ctx.model.flow.sources_local(body, tm["dest"]["l"], (e[2],))
+            gs = set()
+            for x in srcs:
+                if not (x.kind == "alloc" and x[4] in NODE_COUNT_FNS and x[1] in ctx.fb.bodies):
+                    return False, None
+                gs.add((x[1], x[2]))
+            if gs:
+                return True, ("framed", sorted(gs))
     return False, None
 
 
@@ -2671,7 +2739,12 @@ def S6(ctx, rule="S6", roles_filter=None):
                       role, fmt_expr(e, b), "is 0 for the empty graph" if lb == 0 else "has no established lower bound >= 1"))
         ok, g = monotone_of_node_count(ctx, b, e)
         if ok:
-            gs = sources_of_expr(ctx, b, g)
+            if isinstance(g, tuple) and g and g[0] == "framed":
+                gs = set()
+                for (gbid, gbb) in g[1]:
+                    gs |= set(m.flow.sources_operand(fb.bodies[gbid], fb.bodies[gbid].blocks[gbb]["term"]["args"][0]))
+            else:
+                gs = sources_of_expr(ctx, b, g)
             roles = structure_roles(ctx)
             g_ok = bool(gs) and all(s.kind == "param" and s[2] == 1 and len(s[3]) >= 1 and roles and
                                     s[3][0] in (roles["fwd"], roles["rev"], roles["graph"]) for s in gs)
